@@ -417,3 +417,37 @@ func ZZC07Num() {
 	zzReach("num-ok")
 	zzWitness("end")
 }
+
+// zzStrPieces: source-level pieces of a string literal — plain characters,
+// every escape sequence the lexer accepts, and characters that look like
+// format verbs or markup.
+var zzStrPieces = []string{"a", "\\\\", "\\\"", "\\n", "\\t", "é", " ", "%", "'", "//", "{", "\\\\n", "世"}
+
+// ZZC07Str: string literals built from every sequence of up to S pieces, in
+// every position a string can take (declaration, argument, array element, map
+// value, comparison): formatting keeps the literal's token, the formatted
+// program is accepted and prints the same text.
+func ZZC07Str() {
+	S := zzParam("S", 3)
+	n := 1 + zzChoice("n", S)
+	content := ""
+	for k := 0; k < n; k++ {
+		content += zzStrPieces[zzChoice("piece", len(zzStrPieces))]
+	}
+	lit := "\"" + content + "\""
+	var src string
+	switch zzChoice("pos", 4) {
+	case 0:
+		src = "s := " + lit + "\nprint s (len s)\n"
+	case 1:
+		src = "print " + lit + "  " + lit + "+" + lit + "\n"
+	case 2:
+		src = "a := [" + lit + "   \"x\"]\nm := {k:" + lit + "}\nprint a m\n"
+	case 3:
+		src = "if " + lit + "==\"a\"\n    print 1\nelse\n    print " + lit + "\nend\n"
+	}
+	out := zzCheckFormat(src, "string literal "+lit, true)
+	zzAssert(out != "", "C06/C07 str: a string literal made of valid pieces is accepted")
+	zzReach("str-ok")
+	zzWitness("end")
+}
